@@ -52,15 +52,15 @@ func (c *countingProvider) GetInstanceTypes(ctx context.Context, np *v1.NodePool
 }
 
 type e2e struct {
-	r     *mon.Report
-	e     *world.Env
-	rng   *rand.Rand
-	idx   int
-	cp    *countingProvider
-	hashC *hash.Controller
-	disC  *disruption.Controller
-	desc  map[string]any
-	sig   map[string]bool
+	r          *mon.Report
+	e          *world.Env
+	rng        *rand.Rand
+	idx        int
+	cp         *countingProvider
+	hashC      *hash.Controller
+	disC       *disruption.Controller
+	desc       map[string]any
+	sig        map[string]bool
 	tmplLabels map[string]string
 }
 
@@ -438,7 +438,7 @@ func (x *e2e) classifyCreatePanic(reqs string, pv any, stack string) {
 	key := "panic-in-provisioner-create"
 	if strings.Contains(stack, "scheduling.(*Requirement).Any") {
 		key = "panic-any-empty-or-overflowing-range"
-		if strings.Contains(reqs, "<=-") {
+		if strings.Contains(reqs, "<=-") || strings.Contains(reqs, "Lt [0]") {
 			key = "panic-any-negative-upper-bound"
 		}
 	}
@@ -566,7 +566,7 @@ func (x *e2e) processClaim(create func() (string, error), reqDesc string, shape 
 			}
 		}
 		// ---- (c) drift-relevant changes are reported ----
-		if !selfDrift {
+		if !selfDrift && (i == 0 || rng.Intn(3) != 0) {
 			x.partC(name, cs)
 		}
 		if r.WantSample() && i == 0 && !selfDrift {
